@@ -81,6 +81,22 @@ def main():
         v = getattr(builtins, k)
         if inspect.isclass(v) and issubclass(v, BaseException):
             extra[k] = v
+    # exception classes of third-party libraries that paramiko's modules import or name (handlers must match them)
+    for mn in names:
+        mod = sys.modules.get(mn)
+        for k, v in (vars(mod).items() if mod else []):
+            if inspect.isclass(v) and issubclass(v, BaseException) and not v.__module__.startswith("paramiko"):
+                extra.setdefault(v.__module__ + "." + v.__qualname__, v)
+                extra.setdefault(v.__qualname__, v)
+    try:
+        import nacl.exceptions as ne
+        for k in dir(ne):
+            v = getattr(ne, k)
+            if inspect.isclass(v) and issubclass(v, BaseException):
+                extra.setdefault("nacl.exceptions." + k, v)
+                extra.setdefault(k, v)
+    except Exception:
+        pass
     for k, v in extra.items():
         out["excs"][k] = [c.__module__ + "." + c.__qualname__ for c in v.__mro__]
     out["special"] = special()
